@@ -92,7 +92,8 @@ func genRigCase(r *rng.R) rigIn {
 		for mi := 0; mi < nm; mi++ {
 			verb := rng.Pick(r, []string{"GET", "POST", "PUT", "DELETE", "PATCH"})
 			firstBody := mi == 0 && nc == 2 // each controller opens with a JSON body of ITS package: same parameter name, two import paths
-			if firstBody {
+			enumBody := p.Config.EnumValidator && ci == 0 && mi == 1 // one route takes a body whose field carries a generated enum validator
+			if firstBody || enumBody {
 				verb = "POST"
 			}
 			m := pMethod{Name: fmt.Sprintf("Op%d_%d", ci, mi), File: c.File}
@@ -156,7 +157,7 @@ func genRigCase(r *rng.R) rigIn {
 			bodyKind := ""
 			if hasBody {
 				bk := r.Intn(3)
-				if firstBody {
+				if firstBody || enumBody {
 					bk = 0
 				}
 				switch bk {
@@ -169,6 +170,9 @@ func genRigCase(r *rng.R) rigIn {
 					if !firstBody && r.Chance(1, 3) {
 						bt = "[]" + bt // every element is validated
 					} else if !firstBody && p.Config.EnumValidator && r.Chance(1, 2) {
+						bt = "Employee"
+					}
+					if enumBody {
 						bt = "Employee"
 					}
 					params = append(params, rigParam{name: "body", ty: bt, loc: "Body", wire: "body"})
